@@ -4,9 +4,10 @@
     The census objects come from Gen/CopyCensus_gen.v (regenerated from vmf.py / keyvalues.py on every run);
     the check discharges [copy_fresh_mutables census_X = true] and [copy_covers_fields census_X = true]
     per class as instance obligations, and [export_ok ... = true] for heaps exported from real objects. *)
-From Coq Require Import List PArith ZArith Bool.
+From Coq Require Import List PArith ZArith Bool String.
 From SV Require Import SM.Store SM.StoreProofs SM.StoreCert SM.StoreCertProofs SM.StoreCopy SM.StoreCopyProofs
-  SM.StoreExamples SM.KvAdd SM.KvAddProofs Gen.CopyCensus_gen.
+  SM.StoreExamples SM.KvAdd SM.KvAddProofs SM.StoreCopySrc SM.StoreCopySrcProofs SM.KvAddFresh SM.KvAddFreshProofs
+  SM.StoreCopyExport SM.StoreCopyExportProofs Gen.CopyCensus_gen Gen.CopyExportReads_gen.
 Import ListNotations.
 
 (** FRAME THEOREM.  If no mutable location is reachable both from [a] and from the roots [R] a mutator
@@ -127,3 +128,92 @@ Theorem c09_kv_iadd_extends_self : forall (A : Type) r1 r2,
   negb (recv_is_copy r1) && negb (recv_is_copy r2) = true ->
   forall single (self other : list A), kv_iadd r1 r2 single self other = (self ++ other)%list.
 Proof. exact @kv_iadd_extends_self. Qed.
+
+(** ROUND 2 — census with SOURCES.  The generated table also records from which fields of the original each
+    field of the copy is built ([sources_X]); [copy_sources_match] (instance obligation per class) demands that
+    every field that carries the original's value is built from exactly its own field.  Then the positional
+    relation [fields_rel_src] (field i of the copy comes from field [src i] of the original) is the field-by-field
+    relation of the round-1 theorems, and independence follows as before. *)
+Theorem c09_sources_fields_rel : forall h h' (c : census) (s : srcmap) orig vs',
+  copy_sources_match c s = true -> kinds_rel h c orig ->
+  fields_rel_src h h' orig (resolve c s) vs' -> fields_rel h h' (ck c) orig vs'.
+Proof. exact sources_fields_rel. Qed.
+
+Theorem c09_census_src_copy_independent : forall (c : census) (s : srcmap) h h' la lc nd nd',
+  closed h -> closed h' -> extends h h' -> h la = Some nd -> h lc = None -> h' lc = Some nd' ->
+  copy_fresh_mutables c = true -> copy_sources_match c s = true ->
+  kinds_rel h c (nfields nd) ->
+  fields_rel_src h h' (nfields nd) (resolve c s) (nfields nd') ->
+  (forall ms h'' R, steps (h', [lc]) ms (h'', R) -> forall n, unfold n h'' (VRef la) = unfold n h' (VRef la)) /\
+  (forall ms h'' R, steps (h', [la]) ms (h'', R) -> forall n, unfold n h'' (VRef lc) = unfold n h' (VRef lc)).
+Proof. exact census_src_copy_independent. Qed.
+
+(** Without the source check a census can be fresh and covered and the copy still observably wrong
+    (the shape of the seeded fault [multi_alpha=vert.multi_blend]). *)
+Theorem c09_wrong_source_observable_refuted :
+  copy_fresh_mutables ws_census = true /\ copy_covers_fields ws_census = true /\
+  copy_sources_match ws_census ws_sources = false /\ wrong_source ws_census ws_sources = ["multi_alpha"%string] /\
+  fields_rel_src ws_h ws_h' [VAtom 5%Z; VAtom 7%Z] (resolve ws_census ws_sources) [VAtom 5%Z; VAtom 5%Z] /\
+  ~ obs_eq ws_h ws_h' (VRef 1%positive) (VRef 2%positive).
+Proof. exact wrong_source_observable. Qed.
+
+Definition all_sources_match : bool :=
+  forallb (fun p => match find (fun q => String.eqb (fst q) (fst p)) all_sources with
+                    | Some q => copy_sources_match (snd p) (snd q) | None => false end) all_census.
+
+(** Keyvalues '+' / '+=': with copies appended in BOTH branches (flags read from keyvalues.py, one per append
+    site) the result is complete, the left operand unchanged, and no child of the right operand is in the
+    result; '+=' likewise. *)
+Theorem c09_kv_add_ids_fresh : forall (A : Type) (cp : A -> A) r1 r2 ret cs ci,
+  recv_is_copy r1 && recv_is_copy r2 && recv_is_copy ret = true -> cs && ci = true ->
+  forall single (self other : list A),
+    kv_add_ids cp r1 r2 ret cs ci single self other = (self, (self ++ map cp other)%list) /\
+    ((forall x y, In y other -> cp x <> y) -> forall x, In x (map cp other) -> ~ In x other).
+Proof. exact @kv_add_ids_fresh. Qed.
+
+Theorem c09_kv_iadd_ids_fresh : forall (A : Type) (cp : A -> A) r1 r2 cs ci,
+  negb (recv_is_copy r1) && negb (recv_is_copy r2) = true -> cs && ci = true ->
+  forall single (self other : list A), kv_iadd_ids cp r1 r2 cs ci single self other = (self ++ map cp other)%list.
+Proof. exact @kv_iadd_ids_fresh. Qed.
+
+Theorem c09_kv_add_single_branch_shares_refuted :
+  kv_add_ids (fun x => (x + 100)%nat) RCopy RCopy RCopy false true true [1%nat] [7%nat] = ([1%nat], [1%nat; 7%nat]) /\
+  kv_add_ids (fun x => (x + 100)%nat) RCopy RCopy RCopy false true false [1%nat] [7%nat] = ([1%nat], [1%nat; 107%nat]).
+Proof. exact kv_add_single_branch_shares_refuted. Qed.
+
+(** ROUND 2 — COMPLETENESS AS EXPORT EQUALITY.  [export_reads_X] (Gen/CopyExportReads_gen.v) = the data fields the
+    export of class X reads; the observation is the unfolding with unread / ID / context positions masked.  If
+    every observed field of the census passes [copy_export_ok] (carried over, from its own field) and the copy's
+    fields are related to the original's as the census says — shared, fresh container of the same elements, or a
+    nested copy that itself exports equally (this theorem one level down) — the copy exports like the original. *)
+Theorem c09_copy_export_equal : forall (mk : loc -> list bool) (c : census) (s : srcmap) (reads : list string)
+    h h' la lc nd nd',
+  closed h -> extends h h' -> h la = Some nd -> h' lc = Some nd' -> nmut nd' = nmut nd ->
+  mk la = obs_mask c reads -> mk lc = obs_mask c reads ->
+  List.length (nfields nd) = List.length c ->
+  copy_export_ok c s reads = true ->
+  fields_rel_c mk h h' (nfields nd) (eresolve c s reads) (nfields nd') ->
+  mobs_eq mk h h' (VRef la) (VRef lc).
+Proof. exact copy_export_equal. Qed.
+
+(** ... hence every export function that depends only on the observation yields the same text. *)
+Theorem c09_copy_export_text_equal : forall (T : Type) (mk : loc -> list bool) (E : tree -> T)
+    (c : census) (s : srcmap) (reads : list string) h h' la lc nd nd',
+  closed h -> extends h h' -> h la = Some nd -> h' lc = Some nd' -> nmut nd' = nmut nd ->
+  mk la = obs_mask c reads -> mk lc = obs_mask c reads ->
+  List.length (nfields nd) = List.length c ->
+  copy_export_ok c s reads = true ->
+  fields_rel_c mk h h' (nfields nd) (eresolve c s reads) (nfields nd') ->
+  forall n, E (munfold mk n h' (VRef lc)) = E (munfold mk n h (VRef la)).
+Proof. exact copy_export_text_equal. Qed.
+
+Theorem c09_copy_export_equal_not_vacuous :
+  copy_export_ok ex_census ex_src_good ex_reads = true /\
+  mobs_eq ex_mk ex_h (ex_h' 7%Z) (VRef 1%positive) (VRef 2%positive).
+Proof. exact copy_export_equal_applies. Qed.
+
+Theorem c09_copy_export_wrong_source_refuted :
+  copy_export_ok ex_census ex_src_bad ex_reads = false /\
+  export_broken ex_census ex_src_bad ex_reads = ["alpha"%string] /\
+  ~ mobs_eq ex_mk ex_h (ex_h' 5%Z) (VRef 1%positive) (VRef 2%positive).
+Proof. exact copy_export_wrong_source_refuted. Qed.
